@@ -302,6 +302,116 @@ def run_sequence_impl(calls):
     return ("ok", pat, fac, edg, vpr)
 
 
+# ------------------------------------------------------------------------------------------------
+# face histories (class U): re-indexing / moving calls on the two faces of one operation, with side
+# faces requested in between; model: Model/OpFaceHist.v
+
+
+def gen_face_history(rng, n):
+    calls = []
+    for _ in range(n):
+        k = rng.random()
+        top = rng.random() < 0.5
+        if k < 0.15:
+            calls.append(["invert", top])
+        elif k < 0.35:
+            calls.append(["shift", top, rng.randint(-9, 9)])
+        elif k < 0.5:
+            calls.append(["reorient", top, rng.randrange(4)])
+        elif k < 0.62:
+            calls.append(["move_face", top])
+        elif k < 0.7:
+            calls.append(["op_move"])
+        elif k < 0.76:
+            calls.append(["op_invert"])
+        else:
+            calls.append(["get_face", rng.choice(SIDES)])
+    calls.append(["get_face", rng.choice(SIDES)])
+    return calls
+
+
+def run_face_history_impl(calls):
+    """Returns (observations, final) with point/edge identities as in Model/OpFaceHist.v, or ('error', class).
+    A point is identified through its CURRENT position among the operation's eight Point objects."""
+    import numpy as np
+    cb = _cb()
+    from classy_blocks.construct.edges import Arc
+    bottom = cb.Face(CUBE[:4], [Arc([100 + i, 3, 7]) for i in range(4)])
+    top = cb.Face(CUBE[4:], [Arc([200 + i, 5, 9]) for i in range(4)])
+    op = cb.Loft(bottom, top)
+    pid = {id(p): i for i, p in enumerate(list(bottom.points) + list(top.points))}
+    eid = {id(e): 10 + i for i, e in enumerate(list(bottom.edges) + list(top.edges))}
+
+    def ident(position):
+        for p in list(op.bottom_face.points) + list(op.top_face.points):
+            if float(np.linalg.norm(np.asarray(position) - p.position)) < 1e-9:
+                return pid.get(id(p), 98)
+        return 99  # not a current corner of the operation (stale or wrong)
+
+    obs = []
+    try:
+        for step, c in enumerate(calls):
+            vec = [0.013 * (step + 1), -0.007 * (step + 2), 0.011 * (step + 3)]
+            if c[0] == "get_face":
+                face = op.get_face(c[1])
+                obs.append([ident(p.position) for p in face.points])
+                continue
+            face = op.top_face if (len(c) > 1 and c[1]) else op.bottom_face
+            if c[0] == "invert":
+                face.invert()
+            elif c[0] == "shift":
+                face.shift(c[2])
+            elif c[0] == "reorient":
+                target = face.points[c[2]].position + np.array([0.004, -0.003, 0.002])
+                face.reorient(target)
+            elif c[0] == "move_face":
+                face.translate(vec)
+            elif c[0] == "op_move":
+                op.translate(vec).rotate(0.05 * (step + 1), [0.1, 0.2, 1.0], [0.3, 0.1, 0.2])
+            elif c[0] == "op_invert":
+                op.invert()
+        final = [[pid.get(id(p), 98) for p in op.bottom_face.points], [pid.get(id(p), 98) for p in op.top_face.points],
+                 [eid.get(id(e), 98) for e in op.bottom_face.edges], [eid.get(id(e), 98) for e in op.top_face.edges]]
+    except Exception as e:
+        return ("error", exc_enum(e))
+    return ("ok", obs, final)
+
+
+def coq_fcall(c):
+    if c[0] == "get_face":
+        return "GetFace %s" % COQ_SIDE[c[1]]
+    if c[0] == "op_move":
+        return "OpMove"
+    if c[0] == "op_invert":
+        return "OpInvert"
+    t = bl(c[1])
+    if c[0] == "invert":
+        return "FInvert %s" % t
+    if c[0] == "shift":
+        return "FShift %s %s" % (t, core.coq_z(c[2]))
+    if c[0] == "reorient":
+        return "FReorient %s %d" % (t, c[2])
+    return "FMove %s" % t
+
+
+SIDE_CORNERS = {"bottom": {0, 1, 2, 3}, "top": {4, 5, 6, 7}, "left": {0, 3, 4, 7}, "right": {1, 2, 5, 6},
+                "front": {0, 1, 4, 5}, "back": {2, 3, 6, 7}}
+
+
+def oracle_face_history(calls, out):
+    """Direct oracle (no Coq model): every requested side face consists of four different current corners of the
+    operation (99 = a position that is no current corner: a stale or wrong face)."""
+    if out[0] != "ok":
+        return "history raised %s" % (out[1],)
+    for o in out[1]:
+        if len(set(o)) != 4 or any(x > 7 for x in o):
+            return "get_face returned points that are not four distinct current corners: %s" % (o,)
+    f = out[2]
+    if sorted(f[0] + f[1]) != list(range(8)):
+        return "faces lost/duplicated points: %s" % (f,)
+    return ""
+
+
 LABELS = {"pa": 1, "pb": 2, "pc": 3, "ga": 11, "gb": 12, "gc": 13}
 
 
@@ -329,7 +439,8 @@ def coq_obs(ob):
 
 class C10(Prop):
     pid = "C10"
-    prebuilt = ["Base/Hex.v", "Base/Vec3.v", "Model/OpAddr.v", "Model/FaceGeom.v", "Proofs/OpAddrFrame.v", "Proofs/FaceGeom.v"]
+    prebuilt = ["Base/Hex.v", "Base/Vec3.v", "Model/OpAddr.v", "Model/FaceGeom.v", "Model/OpFaceHist.v", "Proofs/OpAddrFrame.v",
+                "Proofs/FaceGeom.v", "Proofs/OpFaceHist.v"]
     gen_dependent_files = ["Gen/C10/Tables.v"]
     property_files = ["Properties/C10.v"]
     trusted = [
@@ -347,7 +458,9 @@ class C10(Prop):
 
     def correspond(self, ctx):
         res = CorrResult()
-        res.rule = ("random sequences (length 1..8) of set_patch/project_side/project_edge/project_corner on one Loft; "
+        res.rule = ("(a) random histories (1..10 calls + final get_face) of Face.invert/shift(-9..9)/reorient/translate on the bottom/top face, "
+                    "whole-operation moves, Operation.invert and get_face(side) requests, compared with Model/OpFaceHist.v (side faces as "
+                    "sets of current corner identities, final point/edge order exactly); (b) random sequences (length 1..8) of set_patch/project_side/project_edge/project_corner on one Loft; "
                     "compared: patch quads, projected quads, projected edges with label sets, projected corners with "
                     "label lists, or the rejection; non-trivial = at least 2 calls and a non-empty observation; "
                     "distinct by call list")
@@ -387,6 +500,47 @@ class C10(Prop):
             for i in ids:
                 res.mismatches.append(dict(case=i, calls=cases[i][0], impl=cases[i][1]))
         res.traces = len(cases)
+        # ---- face histories against Model/OpFaceHist.v
+        nh = ctx.n(300, 6000)
+        hcases = []
+        for i in range(nh):
+            calls = gen_face_history(ctx.rng, ctx.rng.randint(1, 10))
+            out = run_face_history_impl(calls)
+            hcases.append((calls, out))
+            res.evaluations += 1
+            res.count("hist_len=%d" % len(calls))
+            res.count("hist_outcome=" + out[0])
+            if out[0] == "ok" and len(out[1]) >= 2 and any(c[0] in ("invert", "shift", "reorient", "op_invert") for c in calls):
+                res.distinct.add("H" + json.dumps(calls))
+            bad = oracle_face_history(calls, out)
+            if bad:
+                res.oracle_failures.append(dict(kind="face_history", calls=calls, observed=out, why=bad))
+        res.samples += [dict(face_history=c, observed=o) for (c, o) in hcases[:2]]
+        shards = []
+        for k in range(0, len(hcases), per):
+            chunk = hcases[k:k + per]
+            body = ["From Coq Require Import List Bool Arith ZArith.", "From CB Require Import Base.Hex Model.OpFaceHist.",
+                    "Import ListNotations.",
+                    "Definition cases : list (nat * list fcall * list (list nat) * list (list nat)) := ["]
+            rows = []
+            for j, (calls, out) in enumerate(chunk):
+                if out[0] != "ok":
+                    ob, fin = "[[99]]", "[]"
+                else:
+                    ob = "[" + "; ".join(nl(o) for o in out[1]) + "]"
+                    fin = "[" + "; ".join(nl(o) for o in out[2]) + "]"
+                rows.append("(%d, [%s], %s, %s)" % (k + j, "; ".join(coq_fcall(c) for c in calls), ob, fin))
+            body.append(";\n".join(rows))
+            body.append("].")
+            body.append("Eval vm_compute in (map (fun c => fst (fst (fst c))) (filter (fun c => negb (fhist_agrees (snd (fst (fst c))) (snd (fst c)) (snd c))) cases)).")
+            shards.append(("hist_%d" % (k // per), "\n".join(body) + "\n"))
+        for (name, rc, so, se) in core.run_cases_parallel(ctx, shards):
+            if rc != 0:
+                res.error = "case file %s failed to compile: %s" % (name, se[-800:])
+                return res
+            for i in parse_id_list(so):
+                res.mismatches.append(dict(kind="face_history", case=i, calls=hcases[i][0], impl=hcases[i][1]))
+        res.traces += len(hcases)
         return res
 
     def search(self, ctx, broken, corr):
@@ -400,6 +554,11 @@ class C10(Prop):
             return fails
         fails += oracle_tables(face, addr)
         for m in corr.mismatches[:5]:
+            if m.get("kind") == "face_history":
+                bad = oracle_face_history(m["calls"], m["impl"])
+                if bad:
+                    fails.append(dict(kind="face_history", calls=m["calls"], observed=m["impl"], why=bad))
+                continue
             bad = oracle_obs(m["impl"]) or oracle_sequence(m["calls"], m["impl"])
             if bad:
                 fails.append(dict(kind="sequence", calls=m["calls"], observed=m["impl"], why=bad))
@@ -409,7 +568,11 @@ class C10(Prop):
         return rp.get("sig") or "%s:%s" % (rp.get("kind"), rp.get("why", "")[:80])
 
     def replay(self, ctx, obj):
-        if obj.get("kind") == "sequence":
+        if obj.get("kind") == "face_history":
+            out = run_face_history_impl(obj["calls"])
+            print("implementation:", out)
+            print("oracle:", oracle_face_history(obj["calls"], out) or "ok")
+        elif obj.get("kind") == "sequence":
             ob = run_sequence_impl(obj["calls"])
             print("implementation:", ob)
             print("oracle:", oracle_obs(ob) or oracle_sequence(obj["calls"], ob) or "ok")
